@@ -6,6 +6,7 @@
 
 pub mod ns_ {
 use super::*;
+use crate::attrs_::{Attribute, Attributes, AttrError};
 use vstd::prelude::*;
 pub type Result<T> = core::result::Result<T, Error>;
 pub type Span = core::ops::Range<u64>;
@@ -159,18 +160,154 @@ impl NamespaceEntry {
 }
 //@end
 
+/// `#[derive(PartialEq)]` of Namespace, written out (trusted transcription of the derive): compares the bytes
+impl<'a> vstd::std_specs::cmp::PartialEqSpecImpl for Namespace<'a> {
+    open spec fn obeys_eq_spec() -> bool { true }
+    open spec fn eq_spec(&self, o: &Self) -> bool { self.0@ == o.0@ }
+}
+impl<'a> PartialEq for Namespace<'a> {
+    fn eq(&self, o: &Self) -> (r: bool)
+        ensures r == (self.0@ == o.0@)
+    {
+        let r = self.0 == o.0;
+        proof { if r { assert(self.0@ =~= o.0@); } }
+        r
+    }
+}
+/// Namespaces in XML 1.1, section 3: the two reserved namespace names
+pub open spec fn uri_xml() -> Seq<u8> { seq![0x68u8,0x74,0x74,0x70,0x3a,0x2f,0x2f,0x77,0x77,0x77,0x2e,0x77,0x33,0x2e,0x6f,0x72,0x67,0x2f,0x58,0x4d,0x4c,0x2f,0x31,0x39,0x39,0x38,0x2f,0x6e,0x61,0x6d,0x65,0x73,0x70,0x61,0x63,0x65] }
+pub open spec fn uri_xmlns() -> Seq<u8> { seq![0x68u8,0x74,0x74,0x70,0x3a,0x2f,0x2f,0x77,0x77,0x77,0x2e,0x77,0x33,0x2e,0x6f,0x72,0x67,0x2f,0x32,0x30,0x30,0x30,0x2f,0x78,0x6d,0x6c,0x6e,0x73,0x2f] }
+//@extract name::RESERVED_NAMESPACE_XML | src/name.rs :: const RESERVED_NAMESPACE_XML | serves=C05
+/// That constant define the one of [reserved namespaces] for the xml standard.
+///
+/// The prefix `xml` is by definition bound to the namespace name
+/// `http://www.w3.org/XML/1998/namespace`. It may, but need not, be declared, and must not be
+/// undeclared or bound to any other namespace name. Other prefixes must not be bound to this
+/// namespace name, and it must not be declared as the default namespace.
+///
+/// [reserved namespaces]: https://www.w3.org/TR/xml-names11/#xmlReserved
+pub exec const RESERVED_NAMESPACE_XML: (Prefix<'static>, Namespace<'static>)
+    // "xml" is bound to http://www.w3.org/XML/1998/namespace
+    ensures RESERVED_NAMESPACE_XML.0.0@ =~= seq![0x78u8, 0x6d, 0x6c], RESERVED_NAMESPACE_XML.1.0@ =~= uri_xml()
+ { (
+    Prefix(&[b'x', b'm', b'l']),
+    Namespace(&[b'h', b't', b't', b'p', b':', b'/', b'/', b'w', b'w', b'w', b'.', b'w', b'3', b'.', b'o', b'r', b'g', b'/', b'X', b'M', b'L', b'/', b'1', b'9', b'9', b'8', b'/', b'n', b'a', b'm', b'e', b's', b'p', b'a', b'c', b'e']),
+) }
+//@end
+//@extract name::RESERVED_NAMESPACE_XMLNS | src/name.rs :: const RESERVED_NAMESPACE_XMLNS | serves=C05
+/// That constant define the one of [reserved namespaces] for the xml standard.
+///
+/// The prefix `xmlns` is used only to declare namespace bindings and is by definition bound
+/// to the namespace name `http://www.w3.org/2000/xmlns/`. It must not be declared or
+/// undeclared. Other prefixes must not be bound to this namespace name, and it must not be
+///  declared as the default namespace. Element names must not have the prefix `xmlns`.
+///
+/// [reserved namespaces]: https://www.w3.org/TR/xml-names11/#xmlReserved
+pub exec const RESERVED_NAMESPACE_XMLNS: (Prefix<'static>, Namespace<'static>)
+    // "xmlns" is bound to http://www.w3.org/2000/xmlns/
+    ensures RESERVED_NAMESPACE_XMLNS.0.0@ =~= seq![0x78u8, 0x6d, 0x6c, 0x6e, 0x73], RESERVED_NAMESPACE_XMLNS.1.0@ =~= uri_xmlns()
+ { (
+    Prefix(&[b'x', b'm', b'l', b'n', b's']),
+    Namespace(&[b'h', b't', b't', b'p', b':', b'/', b'/', b'w', b'w', b'w', b'.', b'w', b'3', b'.', b'o', b'r', b'g', b'/', b'2', b'0', b'0', b'0', b'/', b'x', b'm', b'l', b'n', b's', b'/']),
+) }
+//@end
+impl<'a> QName<'a> {
+//@extract name::QName::as_namespace_binding | src/name.rs :: impl<'a> QName<'a> :: fn as_namespace_binding | serves=C05
+//@rewrite Some(&b':') => ==> Some(c13) if *c13 == b':' =>
+ pub fn as_namespace_binding(&self) -> (r: Option<PrefixDeclaration<'a>>)
+        // Namespaces in XML: the attribute `xmlns` declares the default namespace, `xmlns:p` the prefix p; nothing else is a declaration
+        ensures match r {
+            Some(PrefixDeclaration::Default) => self.0@ =~= seq![0x78u8, 0x6d, 0x6c, 0x6e, 0x73],
+            Some(PrefixDeclaration::Named(p)) => self.0@.len() >= 6 && sw(self.0@, seq![0x78u8, 0x6d, 0x6c, 0x6e, 0x73]) && self.0@[5] == 0x3a && p@ == self.0@.subrange(6, self.0@.len() as int),
+            None => !(sw(self.0@, seq![0x78u8, 0x6d, 0x6c, 0x6e, 0x73]) && (self.0@.len() == 5 || self.0@[5] == 0x3a)),
+        }
+ {
+        if self.0.starts_with(&[b'x', b'm', b'l', b'n', b's']) {
+            return match self.0.get(5) {
+                None => Some(PrefixDeclaration::Default),
+                Some(c13) if *c13 == b':' => Some(PrefixDeclaration::Named(&self.0[6..])),
+                _ => None,
+            };
+        }
+        None
+    }
+//@end
+}
 impl NamespaceResolver {
-    /// assumed contract (Attributes iteration is outside the Verus subset, see C11): whatever the
-    /// attributes declare, the nesting level is incremented first -- also when a reserved-prefix error is returned
-    #[verifier::external_body]
-    pub fn push(&mut self, start: &BytesStart) -> (r: core::result::Result<(), NamespaceError>)
-        requires old(self).nesting_level < i32::MAX, old(self).wf()
+//@extract name::NamespaceResolver::push | src/name.rs :: impl NamespaceResolver :: fn push | serves=C05 n13=1 n1=match
+ pub fn push(&mut self, start: &BytesStart) -> (r: core::result::Result<(), NamespaceError>)
+        requires old(self).nesting_level < i32::MAX, old(self).wf(), start.name_len <= start.buf@.len(),
         ensures final(self).wf(), final(self).nesting_level == old(self).nesting_level + 1,
             // bindings already in scope are untouched; whatever is added belongs to the new level
             final(self).bindings@.len() >= old(self).bindings@.len(),
             final(self).bindings@.subrange(0, old(self).bindings@.len() as int) == old(self).bindings@,
             forall|i: int| old(self).bindings@.len() <= i < final(self).bindings@.len() ==> (#[trigger] final(self).bindings@[i]).level == final(self).nesting_level,
-    { unimplemented!() }
+ {
+        self.nesting_level += 1;
+        let level = self.nesting_level;
+        let ghost b0 = self.bindings@;
+        // adds new namespaces for attributes starting with 'xmlns:' and for the 'xmlns'
+        // (default namespace) attribute.
+        match start.attributes().with_checks(false) { mut __it1 => loop
+            invariant
+                __it1.inv(), __it1.bytes@ == start.buf@, level == self.nesting_level, self.nesting_level == old(self).nesting_level + 1, self.wf(),
+                self.bindings@.len() >= b0.len(), self.bindings@.subrange(0, b0.len() as int) == b0, b0 == old(self).bindings@,
+                forall|i: int| b0.len() <= i < self.bindings@.len() ==> (#[trigger] self.bindings@[i]).level == level,
+            decreases __it1.ahead()
+        { match __it1.next() { None => { break; } Some( a) => {
+            if let Ok(Attribute { key: k, value: v }) = a {
+                match k.as_namespace_binding() {
+                    Some(PrefixDeclaration::Default) => {
+                        let start = self.buffer.len();
+                        self.buffer.extend_from_slice(&v);
+                        self.bindings.push(NamespaceEntry {
+                            start,
+                            prefix_len: 0,
+                            value_len: v.len(),
+                            level,
+                        });
+                    } ,
+                    Some(PrefixDeclaration::Named(__b13_1)) if bytes_eq(__b13_1, &[b'x', b'm', b'l']) => {
+                        if Namespace(&v) != RESERVED_NAMESPACE_XML.1 {
+                            // error, `xml` prefix explicitly set to different value
+                            return Err(NamespaceError::InvalidXmlPrefixBind(v.to_vec()));
+                        }
+                        // don't add another NamespaceEntry for the `xml` namespace prefix
+                    } ,
+                    Some(PrefixDeclaration::Named(__b13_2)) if bytes_eq(__b13_2, &[b'x', b'm', b'l', b'n', b's']) => {
+                        // error, `xmlns` prefix explicitly set
+                        return Err(NamespaceError::InvalidXmlnsPrefixBind(v.to_vec()));
+                    } ,
+                    Some(PrefixDeclaration::Named(prefix)) => {
+                        let ns = Namespace(&v);
+
+                        if ns == RESERVED_NAMESPACE_XML.1 {
+                            // error, non-`xml` prefix set to xml uri
+                            return Err(NamespaceError::InvalidPrefixForXml(prefix.to_vec()));
+                        } else if ns == RESERVED_NAMESPACE_XMLNS.1 {
+                            // error, non-`xmlns` prefix set to xmlns uri
+                            return Err(NamespaceError::InvalidPrefixForXmlns(prefix.to_vec()));
+                        }
+
+                        let start = self.buffer.len();
+                        self.buffer.extend_from_slice(prefix);
+                        self.buffer.extend_from_slice(&v);
+                        self.bindings.push(NamespaceEntry {
+                            start,
+                            prefix_len: prefix.len(),
+                            value_len: v.len(),
+                            level,
+                        });
+                    } ,
+                    None => {} ,
+                }
+            } else {
+                break;
+            }
+        } } } }
+        Ok(())
+    }
+//@end
 
 //@extract name::NamespaceResolver::resolve | src/name.rs :: impl NamespaceResolver :: fn resolve | serves=C05
  pub fn resolve<'n>(
@@ -450,6 +587,8 @@ impl<R> NsReader<R> {
 //@extract ns_reader::NsReader::process_event | src/reader/ns_reader.rs :: impl<R> NsReader<R> :: fn process_event | serves=C05 n11=1,2
  fn process_event<'i>(&mut self, event: Result<Event<'i>>) -> (r: Result<Event<'i>>)
         requires !old(self).pending_pop, old(self).ns_resolver.wf(), old(self).ns_resolver.nesting_level < i32::MAX - 1,
+            // events handed out by the reader are well-formed values (C03)
+            event matches Ok(ev) ==> ev_wf(ev),
         ensures
             final(self).reader == old(self).reader, final(self).ns_resolver.wf(),
             event is Err ==> r is Err,
